@@ -61,7 +61,7 @@ class Describer:
                     if s["k"] == "assign":
                         rv = s["rv"]
                         if rv["k"] == "repeat":
-                            return ("constarr", rv["n"], rv["op"].get("val"))
+                            return ("constarr", rv["n"], rv["op"].get("val") if rv["n"] else None)
                         if rv["k"] == "aggregate" and rv.get("agg") == "array":
                             vals = tuple(o.get("val") for o in rv["ops"])
                             return ("constarr", len(vals), vals if len(set(vals)) > 1 else (vals[0] if vals else None))
